@@ -127,7 +127,7 @@ def run(ctx):
     fb, pb = own_method_paths(ctx, "Flag", "_build")
     ok = len(pp) == 1 and pp[0].retval[0] == "cmp" and pp[0].retval[1] == "!=" and pp[0].retval[3] == N.const(b"\x00") and pp[0].retval[2][0] == "read"
     ctx.ob("C02.R1", fp, ok, "Flag._parse returns `byte != 0`", key="Flag parse")
-    ok = len(pb) == 1 and [e["data"] for e in pb[0].of("WRITE")] == [N.mk_ite(OBJ, N.const(b"\x01"), N.const(b"\x00"))]
+    ok = len(pb) == 2 and {decided(p, OBJ) for p in pb} == {True, False} and all([e["data"] for e in p.of("WRITE")] == [N.const(b"\x01") if decided(p, OBJ) else N.const(b"\x00")] for p in pb)
     ctx.ob("C02.R1", fb, ok, "Flag._build writes one of the two canonical bytes selected by the truthiness of obj", key="Flag build")
     for cls in ("Hex", "HexDump"):
         fi, paths = method_paths(ctx, cls, "_encode")        # (own or inherited: HexDump may be written as a subclass of Hex)
